@@ -31,6 +31,11 @@ RULE = ('random API-built designs from gen_designs (3..16 ops, registers, memori
         '(the loop sources are also destinations), paths(), paths(src) and paths(dst=) defaults; every entry '
         '[s][d] is compared with the independent simple-path enumeration.  The default delay table is compared '
         'numerically with the documented per-op formulas (memory read: bits and max(#read nets,#write nets)).  '
+        'FLOAT delays, compared EXACTLY (==): every case is also analysed with the default table and with a custom '
+        'table of awkward floats (0.1, 1/3, 1e-9, 1e16 absorbing small delays, 0.1*width); timing_map must equal '
+        'the max over explicitly enumerated source paths of the left-to-right float sum, every critical path must '
+        'sum to max_length, and timing_map / max_length / critical_path must equal the generic Coq model '
+        '(Analysis/TimingOrd.v) evaluated at D = binary64 with Coq primitive floats on the same per-net delays.  '
         'Every other case is analysed '
         'while its Block is NOT the working block (working block reset and an unrelated decoy design '
         're-using its input names built first; block= passed, fanout(w) on the foreign wires), the others '
@@ -44,14 +49,20 @@ COQ_TARGETS = ['theories/Analysis/C17Harness.vo', 'theories/Gen/TimingFormula.vo
 TRUSTED = ['Analysis/PathSpec.v: cpath/wsum/is_longest (maximum over register-free paths from an Input/Const/'
            'Register of the summed delays), chain/visits/simple_path (net paths incl. the memory write->read '
            'hop; no net and no wire repeated), reads/fanout_is (cardinality of the set of argument positions)',
-           'py/checks/C17.py brute-force enumerators (all_path_sums, max_paths, simple_paths, position count)']
-ASSUMPTIONS = ['delays are integers in the Coq model: float rounding of the default log-based delay table is '
-               'abstracted; the default table is compared through delay-free facts and, in floats with relative '
-               'tolerance 1e-9, with the longest path under the documented per-op default delays (constants '
-               'hand-copied in py/checks/C17.py default_delay)',
+           'Analysis/PathSpecOrd.v: gcpath/gsum/g_is_longest (the same over an arbitrary delay domain, delays '
+           'summed LEFT TO RIGHT from the source) and ordered_delays/eq_agrees (what is required of the domain)',
+           'IEEE-754: round-to-nearest addition of finite binary64 numbers is monotone in its left argument and '
+           '<= is a total preorder on them (so Python floats are an instance of ordered_delays; not proved in '
+           'Coq); Coq primitive floats and Python floats are the same binary64 arithmetic',
+           'py/checks/C17.py brute-force enumerators (all_path_sums, float_path_sums, max_paths, simple_paths, '
+           'position count) and default_delay (the documented default per-op delay constants, hand-copied)']
+ASSUMPTIONS = ['delays are finite non-NaN numbers (a NaN or infinite gate delay is outside ordered_delays)',
                'custom gate_delay_funcs give a negative delay exactly to r and @ (a negative delay on a '
                'combinational gate makes TimingAnalysis raise KeyError at the first reader)',
                'max_freq: float arithmetic read as exact rational arithmetic (relative tolerance 1e-12)',
+               'critical_path COMPLETENESS (C17_critical_paths_complete/_exact) is proved for integer delays '
+               'only: it needs strictly monotone addition, which float absorption (1e16 + 1 == 1e16) breaks; '
+               'soundness (every returned path sums to max_length) is proved for every ordered domain',
                'mem.readport_nets equals the set of m-nets of that memory in the block (no pass has '
                'rewritten the block)']
 
